@@ -1687,7 +1687,10 @@ FE_BASE_ISAR = ('<enum name="T1"><enum-member name="T1_e1" value="1"/><enum-memb
 def fe_isar(case):
     ms = []
     for m in case["ims"]:
-        attrs = 'name="%s" type="%s"%s' % (m["nm"], _tname(m["t"]), ' optional="true"' if m["opt"] else "")
+        # the optional flag in the spellings the parser takes for true; "false" spellings on the others
+        spell = ("true", "True", "TRUE")[(len(case["script"]) + len(m["nm"]) + m["n"]) % 3]
+        off = ("", ' optional="false"', ' optional="False"')[(len(case["script"]) + m["n"]) % 3]
+        attrs = 'name="%s" type="%s"%s' % (m["nm"], _tname(m["t"]), (' optional="%s"' % spell) if m["opt"] else off)
         dim = {"none": "", "size": '<dimension size="%d"/>' % m["n"],
                "size2": '<dimension size="%d" size2="%d"/>' % (m["n"], m["aux"]),
                "var": '<dimension isVariableSize="true"/>',
